@@ -53,13 +53,19 @@ def coarsen(fmt, cues):
     return out
 
 
-def gen_set(rng, nlang):
+def gen_set(rng, nlang, short=False):
+    """`short`: the set may hold a cue shorter than a frame, followed at once by the next cue (both land in one frame of a
+    MicroDVD hop; every format on the chain can still tell the two apart by their ends)"""
     langs = {}
     for li in range(nlang):
         t = rng.choice([0, 40000, 1000000, 3599000000, 86000000000 - 60000000])
+        if short:
+            t = max(t, 1000000)
         caps = []
         for _ in range(rng.randint(1, 5)):
             d = rng.choice([1000000, 1500000, 2040000, 999999, 1234567])
+            if short and rng.random() < 0.3:
+                d = 30000      # a cue shorter than a frame
             lines = [" ".join(rng.choice(WORDS) for _ in range(rng.randint(1, 4))) for _ in range(rng.randint(1, 3))]
             if len(lines) >= 2 and rng.random() < 0.15:
                 # a line holding nothing but a no-break space (what WebVTT's "&nbsp;" filler line reads as)
@@ -71,7 +77,7 @@ def gen_set(rng, nlang):
                 k = next(i for i, n in enumerate(nodes) if n[0] == "B")
                 nodes = nodes[:k + 1] + [("S", True) + fl, ("B",)] + nodes[k + 1:] + [("S", False) + fl]
             caps.append((t, t + d, nodes))
-            t += d + rng.choice([0, 1000, 40000, 2000000, 123456])
+            t += d + (rng.choice([0, 1000, 40000, 2000000, 123456]) if d >= 999999 else rng.choice([0, 5000, 100]))
         langs[["en-US", "fr-FR", "de-DE"][li]] = caps
     return langs
 
@@ -102,7 +108,9 @@ def explore(chk):
     for chain in chains:
         multi_ok = all(f in ("dfxp", "sami") for f in chain)
         for k in range(per):
-            abstract = gen_set(rng, rng.choice([1, 2, 3]) if multi_ok else 1)
+            # cues shorter than a frame only on chains whose formats can all express a cue's own end (SAMI cannot: a cue that
+            # has no length at the chain's resolution gets the next sync as its end)
+            abstract = gen_set(rng, rng.choice([1, 2, 3]) if multi_ok else 1, short=("sami" not in chain and k % 3 == 2))
             cs0 = capio.build_set(abstract)
             start = obs(cs0)
             case = {"chain": chain, "shared_objects": bool(k % 2), "set": {l: [(s, e, [n[1] for n in ns if n[0] == "T"]) for (s, e, ns) in caps] for l, caps in abstract.items()}}
